@@ -65,7 +65,17 @@ pub fn run(sc: &Value) -> Value {
                 let diffs = diff_snapshots(&before, &after, false);
                 let wrong: Vec<&Value> = diffs.iter().filter(|d| d["field"] == "digest" || d["field"] == "len").collect();
                 let closed = arch.join(format!("{band_id}")).join("BANDTAIL").exists();
-                versions.push(json!({"band": format!("{band_id}"), "closed": closed, "restore_ok": rr.is_ok(), "restore_errors": errs,
+                // the listing itself (an entry listed twice restores to the same tree and would otherwise go unnoticed)
+                let mut listing = Vec::new();
+                if let Ok(mut st) = archive.iter_entries(BandSelectionPolicy::Specified(band_id), Apath::root(), Exclude::nothing(), TestMonitor::arc()).await {
+                    while let Some(e) = st.next().await {
+                        listing.push(e.apath.to_string());
+                        if listing.len() > 10000 {
+                            break;
+                        }
+                    }
+                }
+                versions.push(json!({"band": format!("{band_id}"), "closed": closed, "restore_ok": rr.is_ok(), "restore_errors": errs, "listing": listing,
                                      "wrong_content": wrong, "differences": diffs.len()}));
             }
             out["versions"] = json!(versions);
